@@ -90,6 +90,15 @@ class MemPerDocWriter(base.PerDocWriterWithColumns):
     def _get_column(self, fieldname):
         return self._colwriters[fieldname][1]
 
+    def add_column_value(self, fieldname, column, value):
+        # Every buffered document is written by a per-document writer of its
+        # own, so a column file written here would only ever hold the last
+        # document's value. Keep the values in the segment instead; the reader
+        # builds the column from them
+        with self._segment._lock:
+            values = self._segment._colvalues.setdefault(fieldname, {})
+            values[self._docnum] = value
+
     def start_doc(self, docnum):
         self._doccount += 1
         self._docnum = docnum
@@ -146,14 +155,23 @@ class MemPerDocReader(base.PerDocumentReader):
         return True
 
     def has_column(self, fieldname):
-        filename = "%s.c" % fieldname
-        return self._storage.file_exists(filename)
+        return fieldname in self._segment._colvalues
 
     def column_reader(self, fieldname, column):
+        segment = self._segment
         filename = "%s.c" % fieldname
-        colfile = self._storage.open_file(filename)
-        length = self._storage.file_length(filename)
-        return column.reader(colfile, 0, length, self._segment.doc_count_all())
+        with segment._lock:
+            doccount = segment.doc_count_all()
+            colfile = self._storage.create_file(filename)
+            colwriter = column.writer(colfile)
+            for docnum, value in sorted(segment._colvalues[fieldname].items()):
+                if docnum < doccount:
+                    colwriter.add(docnum, value)
+            colwriter.finish(doccount)
+            colfile.close()
+            colfile = self._storage.open_file(filename)
+            length = self._storage.file_length(filename)
+        return column.reader(colfile, 0, length, doccount)
 
     def doc_field_length(self, docnum, fieldname, default=0):
         return self._segment._lengths[docnum].get(fieldname, default)
@@ -293,6 +311,7 @@ class MemSegment(base.Segment):
         self._stored = {}
         self._lengths = {}
         self._vectors = {}
+        self._colvalues = {}
         self._invindex = {}
         self._terminfos = {}
         self._lock = Lock()
